@@ -13,19 +13,26 @@ Theorem C01_pipe_composes : forall f l r ro vs ctx st,
 Proof. exact pipe_composes. Qed.
 Print Assumptions C01_pipe_composes.
 
-(* `,` concatenates its operands' results *)
+(* `,` concatenates its operands' results ([union_mode] = Some false: the operands do not hand back the very same
+   list object; always the case when one of them builds a new list, C01_union_appends_fresh) *)
 Theorem C01_union_appends : forall f l r ro vs ctx st,
-  (returns_ctx l && returns_ctx r)%bool = false ->
+  union_mode (list_id (is_bound vs) true (ctx_empty ctx) l) (list_id (is_bound vs) true (ctx_empty ctx) r) = Some false ->
   eval (S f) (EUnion l r) ro vs ctx st =
   bind (eval f l ro vs ctx st) (fun ol =>
   bind (eval f r ro vs ctx (snd ol)) (fun or_ => Ok (fst ol ++ fst or_, snd or_))).
 Proof. exact union_appends. Qed.
 Print Assumptions C01_union_appends.
 
-(* ... except when both operands hand back the context's own list (known finding union-same-list) *)
+Theorem C01_union_appends_fresh : forall a, union_mode a fresh_id = Some false /\ union_mode fresh_id a = Some false.
+Proof. intros a. split; [apply union_mode_fresh_r | apply union_mode_fresh_l]. Qed.
+Print Assumptions C01_union_appends_fresh.
+
+(* ... except when both operands hand back the very same list (known finding union-same-list): the context's own
+   list (`. , .`) or the list a variable holds (`2 as $x | $x , $x`) *)
 Theorem C01_union_same_list_refuted : exists doc,
-  run (EUnion ESelf ESelf) doc = tag_ok ++ ser_node doc ++ [10].
-Proof. exists (Scalar TInt [50]). vm_compute. reflexivity. Qed.
+  run (EUnion ESelf ESelf) doc = tag_ok ++ ser_node doc ++ [10] /\
+  run (EAs (ELit TInt [50]) [120] (EUnion (EVar [120]) (EVar [120]))) doc = tag_ok ++ ser_node (Scalar TInt [50]) ++ [10].
+Proof. exists (Scalar TInt [50]). split; vm_compute; reflexivity. Qed.
 Print Assumptions C01_union_same_list_refuted.
 
 (* binary operators pair each left result with each right result, per input node, left-major *)
